@@ -21,6 +21,9 @@ fi
 mkdir -p /tmp/j1939scratch_out
 for chk in "$@"; do
   echo "== check $chk against the patched copy"
-  (cd /verif && VERIF_REPO="$d" VERIF_EVIDENCE_DIR=/tmp/j1939scratch_out VERIF_REPLAY_DIR=/tmp/j1939scratch_out timeout 900 ./check "$chk" --tier quick --no-selftest 2>&1 | grep -v "^VIOLATION" | cut -c1-400 | tail -6)
+  o=$(cd /verif && VERIF_REPO="$d" VERIF_EVIDENCE_DIR=/tmp/j1939scratch_out VERIF_REPLAY_DIR=/tmp/j1939scratch_out timeout 900 ./check "$chk" --tier quick --no-selftest 2>&1 | grep -v "^VIOLATION" | cut -c1-400 | tail -6)
+  echo "$o"
+  # STOP_AT_FIRST=1: the remaining checks are skipped once one check has reported the change
+  if [ "${STOP_AT_FIRST:-0}" = 1 ] && echo "$o" | grep -q "rc=1$"; then break; fi
 done
 rm -rf "$d" "$c"
